@@ -76,7 +76,10 @@ def main(run):
         "q-point batch run_dynamical_matrix_solver_c(dm, qpoints) against the model's flat output buffer; the frequency "
         "formula against QpointsPhonon's stored eigenvalues. "
         "oracle: independent infinite-lattice Fourier sum of the same pair potential vs DynamicalMatrix.run and "
-        "Phonopy.run_qpoints (matrix entries and eigenvalues recovered from the frequencies with the unit factor). "
+        "Phonopy.run_qpoints (matrix entries and eigenvalues recovered from the frequencies with the unit factor); in every "
+        "run additionally purely central-spring models with dyadic geometry on fcc / rock salt / bcc / sc (non-zero blocks whose "
+        "nine elements cancel exactly) and C = Py on arrays with exactly zero, single-element, antisymmetric and "
+        "element-sum-cancelling blocks. "
         "Non-trivial = the oracle matrix is non-zero, and for the short-range clause the cutoff reaches at least the "
         "nearest neighbours; for the commensurate clause the cutoff exceeds half the shortest supercell vector.")
     run.cov["trusted_base"] = [
@@ -296,6 +299,31 @@ def main(run):
                           % (lang, variant, layout, qk, d, scale), dict(info=info, q=list(map(float, qq))))
     run.cov["correspondence"]["compared"] = ncmp
 
+    # ------------------------------------------------------------------ A'. compiled kernel = Python reference on the
+    # implementation (a clause of the property) for arrays with exact zeros and exact cancellations inside blocks
+    for ci, c in enumerate(cases[: (20 if thorough else 8)]):
+        sfc, skinds = U.structured_fc(rng, c["ns"])
+        sfcc = full_fc_to_compact_fc(c["ph"].primitive, sfc)
+        floor = float(np.abs(sfc).max()) / float(min(c["T"]["masses"]))
+        for layout, arr in (("full", sfc), ("compact", sfcc)):
+            c["ph"].force_constants = arr.copy()
+            dm = c["ph"].dynamical_matrix
+            for kind, qq in c["qs"]:
+                dm.run(qq, lang="C")
+                dc = dm.dynamical_matrix.copy()
+                dm.run(qq, lang="Py")
+                dp = dm.dynamical_matrix.copy()
+                ok, d, scale = _close(dc, dp, floor)
+                run.count("C=Py structured blocks/%s" % layout, section="oracle")
+                if not ok:
+                    run.violation("DynamicalMatrix.run", "c-ne-py/structured-blocks/%s" % layout,
+                                  "compiled kernel and Python reference differ by %.3g (scale %.3g) on force constants with exact zeros / "
+                                  "single-element / antisymmetric / element-sum-cancelling blocks" % (d, scale),
+                                  dict(cell=c["name"], smat=c["smat"].tolist(), pmat=c["pm"], q=list(map(float, qq)), layout=layout,
+                                       block_kinds=skinds, fc=sfc.tolist() if c["ns"] <= 8 else "structured_fc(rng) of this seed"))
+        run.case(("structured", c["name"], c["smat"].tolist(), sfc.tobytes()), nontrivial=True)
+        run.count("structured-block fc cases")
+
     # ------------------------------------------------------------------ B. the property itself on the implementation
     factor = float(units.VaspToTHz)
     # the identity proved on the unit monomials (vaspToTHz_sq_monomial), numerically with the module's own constants
@@ -372,6 +400,28 @@ def main(run):
         done += 1
         run.sample(dict(kind="oracle", **info, q=[(k, list(map(float, v))) for k, v in qs]), limit=8)
 
+    # closed-form models with exact cancellations: purely central springs (a = 0, Phi = -b r r^T, b dyadic) on fcc,
+    # rock salt, bcc, sc with dyadic geometry -- blocks on bonds with x+y+z = 0 are non-zero with element sum exactly 0
+    for xname, (xcell, xcen, xsmats) in U.exact_cells().items():
+        for xs in (xsmats if thorough else xsmats[:1]):
+            ph = Phonopy(xcell, supercell_matrix=xs, primitive_matrix=xcen, log_level=0)
+            sc, pc = ph.supercell, ph.primitive
+            minv = gen.min_lattice_vector(sc.cell)
+            cutoff = 3.5
+            fc = gen.pair_fc(sc, cutoff, kfun=U.central_kfun, images=U.images_needed(sc.cell, cutoff))
+            nz = int(sum(1 for i in range(len(sc)) for j in range(len(sc))
+                         if np.abs(fc[i, j]).max() > 0 and float(np.sum(fc[i, j].ravel())) == 0.0 and sum(fc[i, j].ravel().tolist()) == 0.0))
+            run.count("exact models: non-zero blocks with element sum exactly 0", nz)
+            qs = U.qpoints(rng, ph, n_random=1, n_comm=1, n_zb=1, n_out=0)
+            qarr = np.array([x[1] for x in qs])
+            D = U.fourier_dynmat(pc.cell, pc.scaled_positions, pc.numbers, pc.masses, U.central_kfun, cutoff, qarr)
+            info = dict(cell=xname, smat=xs.tolist(), pmat=xcen, dense_svecs=True, clause="short", cutoff=cutoff,
+                        half_min_supercell_vector=float(minv / 2), nn=float(U.nn_distance(xcell)), kfun="central springs a=0, b dyadic",
+                        masses=list(map(float, pc.masses)), n_satom=len(sc), n_patom=len(pc), zero_sum_blocks=nz)
+            if cutoff >= minv / 2:
+                continue
+            ocases.append(dict(ph=ph, fc=fc, qs=qs, D=D, info=info, clause="short", phi_scale=8.0, always_py=True))
+
     def oracle_pass(variant):
         for oc in ocases:
             ph, fc, qs, D, info, clause = oc["ph"], oc["fc"], oc["qs"], oc["D"], oc["info"], oc["clause"]
@@ -386,7 +436,7 @@ def main(run):
                 for n, (kind, qq) in enumerate(qs):
                     ref = D[n]
                     nontriv = float(np.abs(ref).max()) > 0
-                    langs = ("C", "Py") if (variant == "omp" and len(ph.supercell) <= 40) else ("C",)
+                    langs = ("C", "Py") if (variant == "omp" and (len(ph.supercell) <= 40 or oc.get("always_py"))) else ("C",)
                     for lang in langs:
                         dm.run(qq, lang=lang)
                         ok, d, scale = _close(dm.dynamical_matrix, ref, floor)
